@@ -161,7 +161,9 @@ func (s *Sequencer) GetNextBatch(ctx context.Context, req coresequencer.GetNextB
 		}
 	}
 OuterLoop:
-	for size < maxBytes {
+	// scan the DA layer only once the queue is drained: what is still queued precedes, in DA order,
+	// everything at the heights not scanned yet
+	for size < maxBytes && len(s.pendingTxs.list) == 0 {
 		// if we have exceeded maxHeightDrift, stop fetching more transactions
 		if nextDAHeight > lastDAHeight+s.maxHeightDrift {
 			s.logger.Debug("exceeded max height drift, stopping fetching more transactions")
@@ -169,8 +171,9 @@ OuterLoop:
 		}
 		// fetch the next batch of transactions from DA using the helper
 		res := types.RetrieveWithHelpers(ctx, s.DA, s.logger, nextDAHeight, s.Id)
-		if res.Code == coreda.StatusError {
-			// stop fetching more transactions and return the current batch
+		if res.Code == coreda.StatusError || res.Code == coreda.StatusHeightFromFuture {
+			// stop fetching more transactions and return the current batch; a height that does not exist
+			// yet must be scanned again later, not stepped over
 			s.logger.Warn("failed to retrieve transactions from DA layer via helper", "error", res.Message)
 			break OuterLoop
 		}
@@ -184,6 +187,8 @@ OuterLoop:
 				if size+txSize >= maxBytes {
 					// Push remaining transactions back to the queue
 					s.pendingTxs.Push(res.Data[i:], res.IDs[i:], res.Timestamp)
+					// the rest of this height now lives in the queue: the height is consumed
+					nextDAHeight++
 					break OuterLoop
 				}
 				resp.Batch.Transactions = append(resp.Batch.Transactions, tx)
